@@ -24,47 +24,7 @@ VERSIONS = (1, 2, 3, 4, 5, 6, 0x41, 0x42)
 TIER = os.environ.get('VERIF_TIER', 'quick')
 
 
-def cat(*parts):
-    out = None
-    for p in parts:
-        p = sym.lift(p) if not isinstance(p, (bytes, SBytes)) else p
-        out = p if out is None else (sym.lift(out) + p)
-    return out if out is not None else b''
-
-
-def B(vc, name, maxlen=2 ** 31 - 1, minlen=0):
-    """a symbolic byte string of any length the notation can carry ([bytes]/[long string]: int32 length; [string]/[short bytes]: uint16)"""
-    b = vc.bytes(name)
-    vc.assume(sym.and_(b.length() >= minlen, b.length() <= maxlen))
-    return b
-
-
-def s_short(x):
-    return cser.be_unsigned(x, 2)
-
-
-def s_int(x):
-    return cser.be_signed(x, 4)
-
-
-def s_uint(x):
-    return cser.be_unsigned(x, 4)
-
-
-def s_long(x):
-    return cser.be_signed(x, 8)
-
-
-def s_bytes(b):
-    return cat(s_int(sym.lift(b).length() if isinstance(b, SBytes) else len(b)), b)
-
-
-def s_short_bytes(b):
-    return cat(s_short(sym.lift(b).length() if isinstance(b, SBytes) else len(b)), b)
-
-
-def s_string(s):
-    return s_short_bytes(s.encode('utf8') if isinstance(s, str) else s)
+from contracts.wire_common import cat, B, s_short, s_int, s_uint, s_long, s_bytes, s_short_bytes, s_string, same
 
 
 def s_value(v):
@@ -74,11 +34,6 @@ def s_value(v):
     if v is UNSET_VALUE:
         return s_int(-2)
     return s_bytes(v)
-
-
-def same(vc, name, got, want):
-    g, w = sym.lift(got) if not isinstance(got, SBytes) else got, sym.lift(want) if not isinstance(want, SBytes) else want
-    vc.check(name, g == w)
 
 
 @harness('C03', 'primitives', functions=[PR + n for n in ('write_byte', 'write_short', 'write_int', 'write_uint', 'write_long', 'write_string', 'write_longstring',
